@@ -94,6 +94,8 @@ def generate(rng, tier, index):
         kw['backoff'] = rng.choice([0.01, 0.1, 0.3])
     if kind == 'udp' and rng.random() < 0.06:
         kw.pop('timeout')           # the UDP client's default: no timeout at all
+    if kind == 'serial' and rng.random() < 0.5:
+        kw['baudrate'] = rng.choice([9600, 19200, 38400, 115200])
     gen = cc.OpGen(rng, framing, extended=rng.choice([0.0, 0.0, 0.25, 0.5]))
     unit = rng.choice([1, 1, 2, 17, 0, 255])
     enabled = rng.sample(ALPHABET[2:], rng.randint(1, 4)) + ['reply', 'exception']
@@ -113,6 +115,11 @@ def generate(rng, tier, index):
     # two healthy follow-ups: a connection the peer reset while the client was idle is only
     # discovered by using it, so the first follow-up may still pay for that; the last one is judged
     ops.append(gen.op(unit=unit, maxn=20, exc_rate=0.0))
+    if kind == 'serial' and rng.random() < 0.5:
+        # the judged follow-up starts a few milliseconds after the previous frame ended: inside, at the edge of or
+        # just past the RTU silent interval (1.75-4 ms for the baud rates used), where the client's bus-idle
+        # bookkeeping (last_frame_end / silent_interval) decides how long to wait before sending
+        ops[-1]['think'] = rng.choice([0.0005, 0.001, 0.0015, 0.002, 0.0025, 0.003, 0.0035, 0.004, 0.005, 0.007, 0.012])
     ops.append(gen.op(unit=unit, maxn=20, exc_rate=0.0))      # healthy follow-up (judged)
     extra = {'cpu_step': rng.choice([2e-6, 1e-5, 5e-5]), 'sched': {'tail_seed': rng.randrange(1 << 30)}}
     if rng.random() < 0.08 and kind in ('tcp', 'serial'):
